@@ -7,7 +7,7 @@
 import Kopf.Model.C09_Daemons
 namespace Kopf.C09
 
-variable (c : TCfg) (e : TEnv) (o : Outcome)
+variable (c : TCfg) (e : TEnv) (o : Nat → Outcome)
 
 theorem settles_succ : ∀ (k : Nat) (l : TLoc), settles c e o k l = true → settles c e o (k + 1) l = true
   | 0, l, h => by simp [settles] at h
@@ -117,20 +117,46 @@ theorem settles_after_failed (hg : c.guarded = true) (hidle : ∀ d, c.idle = so
                 unfold Tick at *
                 omega
 
+/-- after a run that did not yield and is to be retried after a positive delay -/
+theorem settles_after_retry (l : TLoc) (h : l.pc = .post) (hd : l.done = false) (hpos : 0 < l.errDelay) :
+    settles c e o 2 l = true := by
+  cases hs : e.stop with
+  | false =>
+    apply settles_le c e o (k := 1) (by omega)
+    apply settles_susp (l' := { l with pc := .head })
+    simp [tstep, h, hd, sleepTo_susp e hpos hs]
+  | true =>
+    apply settles_cont (l' := { l with pc := .head })
+    · simp [tstep, h, hd, sleepTo, sleepSuspends, hs]
+    · exact settles_head_stop c e o _ rfl hs
+
 theorem settles_invoke (hg : c.guarded = true) (hidle : ∀ d, c.idle = some d → 0 < d)
-    (hint : ∀ v, c.interval = some v → 0 < v) (l : TLoc) (h : l.pc = .invoke) : settles c e o 5 l = true := by
+    (hint : ∀ v, c.interval = some v → 0 < v) (hgood : ∀ n, (o n).good = true)
+    (l : TLoc) (h : l.pc = .invoke) : settles c e o 5 l = true := by
   by_cases hf : (l.done && l.failed) = true
   · apply settles_cont (l' := { l with pc := .post, started := e.now })
     · simp [tstep, h, hf]
     · simp only [Bool.and_eq_true] at hf
       exact settles_after_failed c e o hg hidle hint _ rfl hf.1 rfl
-  · apply settles_le c e o (k := 1) (by omega)
-    apply settles_susp (l' := { l with pc := .post, started := e.now, done := o.done, failed := o.failed, errDelay := o.errDelay })
-    simp [tstep, h, hf]
+  · cases hy : (o l.runs).yields with
+    | true =>
+      apply settles_le c e o (k := 1) (by omega)
+      apply settles_susp (l' := { l with pc := .post, started := e.now, done := (o l.runs).done, failed := (o l.runs).failed, errDelay := (o l.runs).errDelay, runs := l.runs + 1 })
+      simp [tstep, h, hf, hy]
+    | false =>
+      apply settles_cont (l' := { l with pc := .post, started := e.now, done := (o l.runs).done, failed := (o l.runs).failed, errDelay := (o l.runs).errDelay, runs := l.runs + 1 })
+      · simp [tstep, h, hf, hy]
+      · cases hd : (o l.runs).done with
+        | true => exact settles_after_failed c e o hg hidle hint _ rfl rfl rfl
+        | false =>
+          have hgd := hgood l.runs
+          simp only [Outcome.good, hy, hd, Bool.false_or, decide_eq_true_eq] at hgd
+          exact settles_le c e o (k := 2) (by omega) _ (settles_after_retry c e o _ rfl rfl hgd)
 
 section
 variable (hg : c.guarded = true) (hidle : ∀ d, c.idle = some d → 0 < d) (hint : ∀ v, c.interval = some v → 0 < v)
-include hg hidle hint
+  (hgood : ∀ n, (o n).good = true)
+include hg hidle hint hgood
 
 theorem settles_idleDone (l : TLoc) (h : l.pc = .idleDone) : settles c e o 6 l = true := by
   cases hs : e.stop with
@@ -142,7 +168,7 @@ theorem settles_idleDone (l : TLoc) (h : l.pc = .idleDone) : settles c e o 6 l =
   | false =>
     apply settles_cont (l' := { l with pc := .invoke })
     · simp [tstep, h, hs]
-    · exact settles_invoke c e o hg hidle hint _ rfl
+    · exact settles_invoke c e o hg hidle hint hgood _ rfl
 
 theorem settles_idleHead (l : TLoc) (h : l.pc = .idleHead) : settles c e o 7 l = true := by
   cases hi : c.idle with
@@ -150,7 +176,7 @@ theorem settles_idleHead (l : TLoc) (h : l.pc = .idleHead) : settles c e o 7 l =
     apply settles_le c e o (k := 6) (by omega)
     apply settles_cont (l' := { l with pc := .invoke })
     · simp [tstep, h, hi]
-    · exact settles_invoke c e o hg hidle hint _ rfl
+    · exact settles_invoke c e o hg hidle hint hgood _ rfl
   | some idle =>
     by_cases hc : (!e.stop && decide (e.now - e.idleReset < idle)) = true
     · simp only [Bool.and_eq_true, Bool.not_eq_true', decide_eq_true_eq] at hc
@@ -159,7 +185,7 @@ theorem settles_idleHead (l : TLoc) (h : l.pc = .idleHead) : settles c e o 7 l =
       · simp only [tstep, h, hi]
         simp only [hc]
         simp
-      · exact settles_idleDone c e o hg hidle hint _ rfl
+      · exact settles_idleDone c e o hg hidle hint hgood _ rfl
 
 theorem settles_head (l : TLoc) (h : l.pc = .head) : settles c e o 8 l = true := by
   cases hs : e.stop with
@@ -170,11 +196,11 @@ theorem settles_head (l : TLoc) (h : l.pc = .head) : settles c e o 8 l = true :=
       apply settles_le c e o (k := 6) (by omega)
       apply settles_cont (l' := { (if (l.done && !l.failed) = true then { l with done := false } else l) with pc := .invoke })
       · simp [tstep, h, hs, hi]
-      · exact settles_invoke c e o hg hidle hint _ rfl
+      · exact settles_invoke c e o hg hidle hint hgood _ rfl
     | some idle =>
       apply settles_cont (l' := { (if (l.done && !l.failed) = true then { l with done := false } else l) with pc := .idleHead })
       · simp [tstep, h, hs, hi]
-      · exact settles_idleHead c e o hg hidle hint _ rfl
+      · exact settles_idleHead c e o hg hidle hint hgood _ rfl
 
 /-- any sleep that leads back to the loop head -/
 theorem settles_sleep_head (d : Tick) (l l0 : TLoc) (ht : tstep c e o l0 = sleepTo d e { l with pc := .head }) :
@@ -182,16 +208,16 @@ theorem settles_sleep_head (d : Tick) (l l0 : TLoc) (ht : tstep c e o l0 = sleep
   unfold sleepTo at ht
   split at ht
   · exact settles_le c e o (k := 1) (by omega) l0 (settles_susp c e o ht)
-  · exact settles_cont c e o ht (settles_head c e o hg hidle hint _ rfl)
+  · exact settles_cont c e o ht (settles_head c e o hg hidle hint hgood _ rfl)
 
 theorem settles_init (l : TLoc) (h : l.pc = .init) : settles c e o 9 l = true := by
   cases hd : c.initialDelay with
   | none =>
     apply settles_cont (l' := { l with pc := .head })
     · simp [tstep, h, hd]
-    · exact settles_head c e o hg hidle hint _ rfl
+    · exact settles_head c e o hg hidle hint hgood _ rfl
   | some d =>
-    apply settles_sleep_head c e o hg hidle hint d l l
+    apply settles_sleep_head c e o hg hidle hint hgood d l l
     simp [tstep, h, hd]
 
 theorem settles_idleLoop (l : TLoc) (h : l.pc = .idleLoop) : settles c e o 9 l = true := by
@@ -199,7 +225,7 @@ theorem settles_idleLoop (l : TLoc) (h : l.pc = .idleLoop) : settles c e o 9 l =
   | none =>
     apply settles_cont (l' := { l with pc := .head })
     · simp [tstep, h, hi]
-    · exact settles_head c e o hg hidle hint _ rfl
+    · exact settles_head c e o hg hidle hint hgood _ rfl
   | some idle =>
     by_cases hc : (decide (e.idleReset ≤ l.started) && !e.stop) = true
     · -- the loop condition holds, so the stopper is not set: the sleep is a real one
@@ -211,13 +237,13 @@ theorem settles_idleLoop (l : TLoc) (h : l.pc = .idleLoop) : settles c e o 9 l =
       · simp only [tstep, h, hi, hg]
         simp only [Bool.not_true, Bool.false_or, hc]
         simp
-      · exact settles_head c e o hg hidle hint _ rfl
+      · exact settles_head c e o hg hidle hint hgood _ rfl
 
 theorem settles_post (l : TLoc) (h : l.pc = .post) : settles c e o 10 l = true := by
   cases hd : l.done with
   | false =>
     apply settles_le c e o (k := 9) (by omega)
-    apply settles_sleep_head c e o hg hidle hint l.errDelay l l
+    apply settles_sleep_head c e o hg hidle hint hgood l.errDelay l l
     simp [tstep, h, hd]
   | true =>
     cases hv : c.interval with
@@ -225,10 +251,10 @@ theorem settles_post (l : TLoc) (h : l.pc = .post) : settles c e o 10 l = true :
       apply settles_le c e o (k := 9) (by omega)
       cases hsh : c.sharp with
       | true =>
-        apply settles_sleep_head c e o hg hidle hint (v - ((e.now - l.started) % v)) l l
+        apply settles_sleep_head c e o hg hidle hint hgood (v - ((e.now - l.started) % v)) l l
         simp [tstep, h, hd, hv, hsh]
       | false =>
-        apply settles_sleep_head c e o hg hidle hint v l l
+        apply settles_sleep_head c e o hg hidle hint hgood v l l
         simp [tstep, h, hd, hv, hsh]
     | none =>
       cases hi : c.idle with
@@ -239,20 +265,198 @@ theorem settles_post (l : TLoc) (h : l.pc = .post) : settles c e o 10 l = true :
       | some idle =>
         apply settles_cont (l' := { l with pc := .idleLoop })
         · simp [tstep, h, hd, hv, hi]
-        · exact settles_idleLoop c e o hg hidle hint _ rfl
+        · exact settles_idleLoop c e o hg hidle hint hgood _ rfl
 
 /-- From every program point: at most 10 micro-steps to a suspension or a return. -/
 theorem settles_all (l : TLoc) : settles c e o 10 l = true := by
   cases hpc : l.pc with
-  | init => exact settles_le c e o (k := 9) (by omega) l (settles_init c e o hg hidle hint l hpc)
-  | head => exact settles_le c e o (k := 8) (by omega) l (settles_head c e o hg hidle hint l hpc)
-  | idleHead => exact settles_le c e o (k := 7) (by omega) l (settles_idleHead c e o hg hidle hint l hpc)
-  | idleDone => exact settles_le c e o (k := 6) (by omega) l (settles_idleDone c e o hg hidle hint l hpc)
-  | invoke => exact settles_le c e o (k := 5) (by omega) l (settles_invoke c e o hg hidle hint l hpc)
-  | post => exact settles_post c e o hg hidle hint l hpc
-  | idleLoop => exact settles_le c e o (k := 9) (by omega) l (settles_idleLoop c e o hg hidle hint l hpc)
+  | init => exact settles_le c e o (k := 9) (by omega) l (settles_init c e o hg hidle hint hgood l hpc)
+  | head => exact settles_le c e o (k := 8) (by omega) l (settles_head c e o hg hidle hint hgood l hpc)
+  | idleHead => exact settles_le c e o (k := 7) (by omega) l (settles_idleHead c e o hg hidle hint hgood l hpc)
+  | idleDone => exact settles_le c e o (k := 6) (by omega) l (settles_idleDone c e o hg hidle hint hgood l hpc)
+  | invoke => exact settles_le c e o (k := 5) (by omega) l (settles_invoke c e o hg hidle hint hgood l hpc)
+  | post => exact settles_post c e o hg hidle hint hgood l hpc
+  | idleLoop => exact settles_le c e o (k := 9) (by omega) l (settles_idleLoop c e o hg hidle hint hgood l hpc)
 
 end
+
+
+/-! ### The negation: a non-yielding run retried with delay ≤ 0 never lets the loop run -/
+
+/-- the three program points of the retry loop of a timer without `idle` whose stopper is not set -/
+def retrySpin (l : TLoc) : Bool :=
+  !l.done && (l.pc == .head || l.pc == .invoke || (l.pc == .post && decide (l.errDelay ≤ 0)))
+
+theorem retrySpin_step (hi : c.idle = none) (hs : e.stop = false)
+    (hbad : ∀ n, (o n).yields = false ∧ (o n).done = false ∧ (o n).errDelay ≤ 0)
+    (l : TLoc) (h : retrySpin l = true) : ∃ l', tstep c e o l = .cont l' ∧ retrySpin l' = true := by
+  simp only [retrySpin, Bool.and_eq_true, Bool.not_eq_true', Bool.or_eq_true, beq_iff_eq, decide_eq_true_eq] at h
+  obtain ⟨hd, hpc⟩ := h
+  rcases hpc with (hpc | hpc) | ⟨hpc, hdel⟩
+  · exact ⟨{ l with pc := .invoke }, by simp [tstep, hpc, hs, hi, hd], by simp [retrySpin, hd]⟩
+  · obtain ⟨hy, hdn, hdl⟩ := hbad l.runs
+    refine ⟨{ l with pc := .post, started := e.now, done := (o l.runs).done, failed := (o l.runs).failed, errDelay := (o l.runs).errDelay, runs := l.runs + 1 }, ?_, ?_⟩
+    · simp [tstep, hpc, hd, hy]
+    · simp [retrySpin, hdn, hdl]
+  · refine ⟨{ l with pc := .head }, ?_, by simp [retrySpin, hd]⟩
+    have : ¬ (0 < l.errDelay) := by unfold Tick at *; omega
+    simp [tstep, hpc, hd, sleepTo, sleepSuspends, this]
+
+theorem retrySpin_never_settles (hi : c.idle = none) (hs : e.stop = false)
+    (hbad : ∀ n, (o n).yields = false ∧ (o n).done = false ∧ (o n).errDelay ≤ 0) :
+    ∀ (k : Nat) (l : TLoc), retrySpin l = true → settles c e o k l = false
+  | 0, _, _ => rfl
+  | k + 1, l, h => by
+    obtain ⟨l', ht, h'⟩ := retrySpin_step c e o hi hs hbad l h
+    unfold settles
+    rw [ht]
+    exact retrySpin_never_settles hi hs hbad k l' h'
+
+/-! ### `_daemon`: the same retry loop -/
+
+section Daemon
+variable (idl : Option Tick) (e : TEnv) (o : Nat → Outcome)
+
+theorem dsettles_succ : ∀ (k : Nat) (l : DLoc), dsettles idl e o k l = true → dsettles idl e o (k + 1) l = true
+  | 0, l, h => by simp [dsettles] at h
+  | k + 1, l, h => by
+    unfold dsettles at h ⊢
+    cases ht : dstep idl e o l with
+    | susp _ => rfl
+    | exit => rfl
+    | cont l' =>
+      rw [ht] at h
+      simp only at h ⊢
+      exact dsettles_succ k l' h
+
+theorem dsettles_le {k k' : Nat} (hk : k ≤ k') (l : DLoc) (h : dsettles idl e o k l = true) :
+    dsettles idl e o k' l = true := by
+  induction hk with
+  | refl => exact h
+  | step _ ih => exact dsettles_succ idl e o _ l ih
+
+theorem dsettles_cont {k : Nat} {l l' : DLoc} (ht : dstep idl e o l = .cont l') (h : dsettles idl e o k l' = true) :
+    dsettles idl e o (k + 1) l = true := by
+  unfold dsettles; rw [ht]; exact h
+
+theorem dsettles_susp {l l' : DLoc} (ht : dstep idl e o l = .susp l') : dsettles idl e o 1 l = true := by
+  unfold dsettles; rw [ht]
+
+theorem dsettles_exit {l : DLoc} (ht : dstep idl e o l = .exit) : dsettles idl e o 1 l = true := by
+  unfold dsettles; rw [ht]
+
+theorem dsettles_head_out (l : DLoc) (h : l.pc = .head) (hs : (e.stop || l.done) = true) : dsettles idl e o 1 l = true := by
+  apply dsettles_exit
+  simp only [dstep, h, hs, if_true]
+
+/-- after a run (at `post`): a finished series leaves through the head; a retry sleeps for real unless stopped -/
+theorem dsettles_post_good (l : DLoc) (h : l.pc = .post) (hgood : l.done = true ∨ 0 < l.delay) :
+    dsettles idl e o 2 l = true := by
+  by_cases hz : l.delay ≠ 0
+  · by_cases hsus : sleepSuspends l.delay e = true
+    · apply dsettles_le idl e o (k := 1) (by omega)
+      apply dsettles_susp (l' := { l with pc := .head })
+      simp [dstep, h, hz, dsleepTo, hsus]
+    · apply dsettles_cont (l' := { l with pc := .head })
+      · simp [dstep, h, hz, dsleepTo, hsus]
+      · apply dsettles_head_out idl e o _ rfl
+        rcases hgood with hd | hp
+        · simp [hd]
+        · simp only [sleepSuspends, hp, decide_true, Bool.true_and, Bool.not_eq_true', Bool.not_eq_false] at hsus
+          simp [hsus]
+  · have hz' : l.delay = 0 := by simpa using hz
+    apply dsettles_cont (l' := { l with pc := .head })
+    · simp [dstep, h, hz']
+    · apply dsettles_head_out idl e o _ rfl
+      rcases hgood with hd | hp
+      · simp [hd]
+      · rw [hz'] at hp; exact absurd hp (by decide)
+
+theorem dsettles_invoke (hgood : ∀ n, (o n).good = true) (l : DLoc) (h : l.pc = .invoke) :
+    dsettles idl e o 3 l = true := by
+  cases hy : (o l.runs).yields with
+  | true =>
+    apply dsettles_le idl e o (k := 1) (by omega)
+    apply dsettles_susp (l' := { l with pc := .post, done := (o l.runs).done, delay := (o l.runs).errDelay, runs := l.runs + 1 })
+    simp [dstep, h, hy]
+  | false =>
+    apply dsettles_cont (l' := { l with pc := .post, done := (o l.runs).done, delay := (o l.runs).errDelay, runs := l.runs + 1 })
+    · simp [dstep, h, hy]
+    · apply dsettles_post_good idl e o _ rfl
+      have hg := hgood l.runs
+      simp only [Outcome.good, hy, Bool.false_or, Bool.or_eq_true, decide_eq_true_eq] at hg
+      exact hg
+
+theorem dsettles_head (hgood : ∀ n, (o n).good = true) (l : DLoc) (h : l.pc = .head) : dsettles idl e o 4 l = true := by
+  by_cases hs : (e.stop || l.done) = true
+  · exact dsettles_le idl e o (k := 1) (by omega) l (dsettles_head_out idl e o l h hs)
+  · apply dsettles_cont (l' := { l with pc := .invoke })
+    · simp only [dstep, h, hs]; simp
+    · exact dsettles_invoke idl e o hgood _ rfl
+
+theorem dsettles_all (hgood : ∀ n, (o n).good = true) (l : DLoc) : dsettles idl e o 5 l = true := by
+  cases hpc : l.pc with
+  | head => exact dsettles_le idl e o (k := 4) (by omega) l (dsettles_head idl e o hgood l hpc)
+  | invoke => exact dsettles_le idl e o (k := 3) (by omega) l (dsettles_invoke idl e o hgood l hpc)
+  | init =>
+    cases hd : idl with
+    | none =>
+      apply dsettles_cont (l' := { l with pc := .head })
+      · simp [dstep, hpc]
+      · exact dsettles_head _ e o hgood _ rfl
+    | some d =>
+      by_cases hsus : sleepSuspends d e = true
+      · apply dsettles_le _ e o (k := 1) (by omega)
+        apply dsettles_susp (l' := { l with pc := .head })
+        simp [dstep, hpc, dsleepTo, hsus]
+      · apply dsettles_cont (l' := { l with pc := .head })
+        · simp [dstep, hpc, dsleepTo, hsus]
+        · exact dsettles_head _ e o hgood _ rfl
+  | post =>
+    by_cases hz : l.delay ≠ 0
+    · by_cases hsus : sleepSuspends l.delay e = true
+      · apply dsettles_le idl e o (k := 1) (by omega)
+        apply dsettles_susp (l' := { l with pc := .head })
+        simp [dstep, hpc, hz, dsleepTo, hsus]
+      · apply dsettles_cont (l' := { l with pc := .head })
+        · simp [dstep, hpc, hz, dsleepTo, hsus]
+        · exact dsettles_head idl e o hgood _ rfl
+    · have hz' : l.delay = 0 := by simpa using hz
+      apply dsettles_cont (l' := { l with pc := .head })
+      · simp [dstep, hpc, hz']
+      · exact dsettles_head idl e o hgood _ rfl
+
+def dretrySpin (l : DLoc) : Bool :=
+  !l.done && (l.pc == .head || l.pc == .invoke || (l.pc == .post && decide (l.delay ≤ 0)))
+
+theorem dretrySpin_step (hs : e.stop = false)
+    (hbad : ∀ n, (o n).yields = false ∧ (o n).done = false ∧ (o n).errDelay ≤ 0)
+    (l : DLoc) (h : dretrySpin l = true) : ∃ l', dstep idl e o l = .cont l' ∧ dretrySpin l' = true := by
+  simp only [dretrySpin, Bool.and_eq_true, Bool.not_eq_true', Bool.or_eq_true, beq_iff_eq, decide_eq_true_eq] at h
+  obtain ⟨hd, hpc⟩ := h
+  rcases hpc with (hpc | hpc) | ⟨hpc, hdel⟩
+  · exact ⟨{ l with pc := .invoke }, by simp [dstep, hpc, hs, hd], by simp [dretrySpin, hd]⟩
+  · obtain ⟨hy, hdn, hdl⟩ := hbad l.runs
+    refine ⟨{ l with pc := .post, done := (o l.runs).done, delay := (o l.runs).errDelay, runs := l.runs + 1 }, ?_, ?_⟩
+    · simp [dstep, hpc, hy]
+    · simp [dretrySpin, hdn, hdl]
+  · refine ⟨{ l with pc := .head }, ?_, by simp [dretrySpin, hd]⟩
+    have hnp : ¬ (0 < l.delay) := by unfold Tick at *; omega
+    by_cases hz : l.delay = 0
+    · simp [dstep, hpc, hz]
+    · simp [dstep, hpc, hz, dsleepTo, sleepSuspends, hnp]
+
+theorem dretrySpin_never_settles (hs : e.stop = false)
+    (hbad : ∀ n, (o n).yields = false ∧ (o n).done = false ∧ (o n).errDelay ≤ 0) :
+    ∀ (k : Nat) (l : DLoc), dretrySpin l = true → dsettles idl e o k l = false
+  | 0, _, _ => rfl
+  | k + 1, l, h => by
+    obtain ⟨l', ht, h'⟩ := dretrySpin_step idl e o hs hbad l h
+    unfold dsettles
+    rw [ht]
+    exact dretrySpin_never_settles hs hbad k l' h'
+
+end Daemon
 
 /-! ### HISTORICAL: the unguarded loop (before /repo 6ccf081) -/
 
